@@ -313,6 +313,11 @@ class TextFlow:
             tgt = self.ctx.res.resolve_callee(c, f)
             if tgt and tgt[0] == "func" and tgt[1] in self.scope:
                 return self._call_package(f, c, tgt[1], lab)
+            if tgt and tgt[0] == "class" and tgt[1] in self.prog.classes:
+                init = self.prog.lookup_method(self.prog.classes[tgt[1]], "__init__")
+                if init is not None and init.qualname in self.scope:
+                    self._call_package(f, c, init.qualname, lab, ctor=True)
+                return NONE
             name = unparse(fn).split(".")[-1]
             if name in RESPELL and "T" in anyT:
                 self._op(f, c, "respell", name, anyT)
@@ -428,7 +433,7 @@ class TextFlow:
                     if "T" in (ll | rl):
                         self._op(f, c, "predicate", "ordering on text", ll | rl)
 
-    def _call_package(self, f: Func, c: ast.Call, q: str, lab) -> Labels:
+    def _call_package(self, f: Func, c: ast.Call, q: str, lab, ctor: bool = False) -> Labels:
         callee = self.prog.functions[q]
         if q in EXEMPT_CALLEES:
             out = NONE
@@ -436,7 +441,7 @@ class TextFlow:
                 out |= lab(a)
             return out
         params = list(callee.params)
-        skip = callee.cls is not None and not callee.is_static and isinstance(c.func, ast.Attribute) and callee.parent is None
+        skip = ctor or (callee.cls is not None and not callee.is_static and isinstance(c.func, ast.Attribute) and callee.parent is None)
         # delayed(Class.static)(...) style calls arrive with all params
         if skip and params:
             params = params[1:]
